@@ -24,6 +24,8 @@ pub enum Step {
     Direct(Vec<Stmt>),
     /// the stored program is edited into this version (changed lines typed, vanished lines deleted by number)
     Edit(Program),
+    /// a RENUM command that succeeds: the typed text and the program as the model renumbering has it
+    Renum(String, Program),
 }
 
 #[derive(Clone)]
@@ -133,7 +135,7 @@ impl C01Case {
                         break;
                     }
                 }
-                Step::Edit(p) => {
+                Step::Edit(p) | Step::Renum(_, p) => {
                     r.edit_program(p);
                     out.push((String::new(), Ended::Ready));
                 }
@@ -228,6 +230,21 @@ impl Case for C01Case {
                     }
                     continue;
                 }
+                Step::Renum(text, p) => {
+                    w.line(text, &LineIo::budget(1000));
+                    cur = p.clone();
+                    v.stats.bump("fault.renum");
+                    if w.fatal.is_none() && w.listing_text().lines().map(|s| s.to_string()).collect::<Vec<_>>() != render_program(&cur) {
+                        // the valid RENUM did not produce the model renumbering (C14 judges RENUM as such;
+                        // here a RESTORE n or branch that did not follow its line is what matters)
+                        v.violation = Some(Violation {
+                            key: format!("{}:renum-listing", self.prop),
+                            detail: format!("{:?}: the listing is {:?}, the model renumbering {:?}", text, w.listing_text(), render_program(&cur)),
+                        });
+                        break;
+                    }
+                    continue;
+                }
             };
             let text = render_stmts(&cur, line);
             let io = LineIo {
@@ -293,7 +310,7 @@ impl Case for C01Case {
 
     fn shrink(&self) -> Vec<Box<dyn Case>> {
         let mut out: Vec<Box<dyn Case>> = vec![];
-        if !self.session.iter().any(|s| matches!(s, Step::Edit(_))) {
+        if !self.session.iter().any(|s| matches!(s, Step::Edit(_) | Step::Renum(..))) {
             for p in shrink_program(&self.prog) {
                 out.push(Box::new(C01Case {
                     prog: p,
@@ -347,6 +364,10 @@ impl Case for C01Case {
                         Step::Direct(l) => v.push(Json::Str(render_stmts(&cur, l))),
                         Step::Edit(p) => {
                             v.push(obj().set("edit_by_typing", edit_lines(&cur, p)).build());
+                            cur = p.clone();
+                        }
+                        Step::Renum(text, p) => {
+                            v.push(Json::Str(text.clone()));
                             cur = p.clone();
                         }
                     }
